@@ -295,6 +295,11 @@ func (d *Def) evaluationBody(
 	p.SetLastEvaluatedT(base.MakeNil())
 	p.EndParsingExpression()
 
+	// a method body may have rescue and ensure clauses of its own: the method
+	// returns its body's value or a rescue clause's, never the ensure clause's
+	isLineStart := true
+	isEnsure := false
+
 	for {
 		nextT, err := p.Read()
 		if err != nil {
@@ -305,9 +310,30 @@ func (d *Def) evaluationBody(
 			break
 		}
 
+		isClauseStart := isLineStart
+		isLineStart = nextT.IsNewLineIdentifier()
+
 		if nextT.IsEndIdentifier() {
-			p.AppendLastReturnT()
+			if !isEnsure {
+				p.AppendLastReturnT()
+			}
+
 			break
+		}
+
+		if isClauseStart && nextT.IsTargetIdentifiers([]string{"rescue", "ensure"}) {
+			if !isEnsure {
+				p.AppendLastReturnT()
+			}
+
+			isEnsure = isEnsure || nextT.IsTargetIdentifier("ensure")
+
+			p.SetLastEvaluatedT(base.MakeNil())
+			p.EndParsingExpression()
+
+			if nextT.IsTargetIdentifier("ensure") {
+				continue
+			}
 		}
 
 		err = e.Eval(p, ctx, nextT)
